@@ -93,6 +93,9 @@ class Flow:
         self.memo.clear()
 
 
+SCALE_FREE_TESTS = ("numpy.isnan", "numpy.isinf", "numpy.isfinite", "math.isnan", "math.isinf", "math.isfinite")
+
+
 def check_order_only(rep, w: Walker, pre: str = "", events: List[Event] = None) -> Dict[str, int]:
     from .common import require_scalar_fragment
     require_scalar_fragment(w, w.entry.qual)
@@ -174,6 +177,8 @@ def check_order_only(rep, w: Walker, pre: str = "", events: List[Event] = None) 
         if tag == "neg":
             scan(t[1], ev, "arithmetic")
             return
+        if tag == "call" and t[1][0] == "mod" and t[1][1] in SCALE_FREE_TESTS:
+            return  # NaN / infinity tests give the same answer for every positive rescaling of the weights
         if tag in ("call", "alloc", "new"):
             fname = show(t[1]) if tag == "call" else t[1]
             for a in t[2]:
@@ -221,6 +226,8 @@ def check_order_only(rep, w: Walker, pre: str = "", events: List[Event] = None) 
                     scan(a, ev, "value")
             elif ev.value is not None and fl.is_source(ev.value):
                 scan(ev.value, ev, "value")
+            elif ev.name in SCALE_FREE_TESTS:
+                pass
             else:
                 for a in ev.args:
                     scan(a, ev, f"a call of {ev.name}")
